@@ -484,7 +484,19 @@ def _builder_args(rng, nprng, k, factory, npar, fname):
     if npar == 0:
         return (k, factory, fname, None, "none")
     r = rng.random()
-    if r < 0.4:
+    if r < 0.15:
+        # nearly uniform rows: one base row at magnitude 0 .. 1e5 and offsets far below it (down to the last bits)
+        # but different as numbers - "the same angle everywhere" judged with a tolerance loses them
+        base = [rng.choice([0.0, round(rng.uniform(-3, 3), 4), round(rng.uniform(-3, 3), 4), 1000.0, -2.5e5])
+                for _ in range(npar)]
+        rel = 10.0 ** -rng.randint(6, 12)
+        rows = [[b + (i * rng.choice([1, 1, -1, 3])) * rel * (abs(b) if b else 1e-3) for b in base] for i in range(k)]
+        if rng.random() < 0.5:
+            rng.shuffle(rows)
+        kind = "near-uniform"
+        if rng.random() < 0.5:
+            rows, kind = np.array(rows, dtype=float).reshape(k, npar), "near-uniform-numpy"
+    elif r < 0.4:
         rows, kind = _rows(rng, nprng, k, npar, True), "numpy"
     elif r < 0.65:
         rows, kind = _rows(rng, nprng, k, npar, False), "list"
